@@ -17,11 +17,14 @@ PID = "C06"
 MODULE = "checks.c06"
 MS, ME, MD = 0.0, 3.0, 1.0
 SCEN = {"A": "sm1", "B": "sm1", "C": "sm2", "D": "sm1"}
-OPS = ["run", "sess_const", "step_const", "sess_points", "step_points", "reset", "open_step", "register_late"]
+OPS = ["run", "sess_const", "step_const", "sess_points", "step_points", "reset", "open_step", "register_late",
+       "multi_const", "multi_points"]
 
 
 def histories(tier):
-    alphabet = [(o, x) for o in OPS if o != "register_late" for x in ("A", "B", "C")] + [("register_late", "E")]
+    alphabet = [(o, x) for o in OPS if o != "register_late" and not o.startswith("multi") for x in ("A", "B", "C")] + [("register_late", "E")]
+    # one session over ALL scenarios of the manager, step settings addressed to one of them: the others' step results
+    alphabet += [(o, x) for o in ("multi_const", "multi_points") for x in ("A", "B", "D")]
     out = [[a] for a in alphabet]
     out += [[a, b] for a in alphabet for b in alphabet]
     if tier == "thorough":
@@ -55,6 +58,7 @@ class World(object):
                          "C": ({}, {"pts": cp})}
         self.managers = dict(SCEN)
         self.open = None
+        self.in_session = {}         # results other scenarios reported inside a multi-scenario session: {who: (got, want)}
 
     def const(self, name):
         if self.mode == "sym":
@@ -112,6 +116,25 @@ class World(object):
                 self.open = None
             else:
                 self.open = x
+        elif op in ("multi_const", "multi_points"):
+            names = [y for y, m in self.managers.items() if m == mgr]
+            b.begin_session(scenarios=names, scenario_managers=[mgr], equations=scen.EQS, starttime=MS, dt=MD)
+            if op == "multi_const":
+                st = {mgr: {x: {"constants": {"c": self.const(tag + "_c"), "k": self.const(tag + "_k")}}}}
+            else:
+                st = {mgr: {x: {"points": {"pts2": self.points(tag), "pts": self.points(tag + "b")}}}}
+            steps = [b.run_step(settings=st), b.run_step(), b.run_step()]
+            b.end_session()
+            self.open = None
+            for y in names:
+                if y == x:
+                    continue
+                got = scen.merge_steps([scen.from_step(r, mgr, y) for r in steps])
+                cs, ps = self.settings[y]
+                want = scen.fresh_results(MS, ME, MD, cs, ps)
+                times = scen.grid(MS, ME, MD)[:3]
+                want = {e: {t: tv[t] for t in times} for e, tv in want.items()}
+                self.in_session["%s in the session stepping %s" % (y, x)] = (got, want)
 
     def observe(self):
         """{who: {eq: {t: v}}} for the three scenarios (batch run) and the base model"""
@@ -123,6 +146,8 @@ class World(object):
             out[x] = scen.from_df(df, mgr, x)
         self.base.reset_cache()
         out["base"] = {e: {t: self.base.memoize(e, t) for t in scen.grid(MS, ME, MD)} for e in scen.EQS}
+        for who, (got, want) in self.in_session.items():
+            out[who] = got
         return out
 
     def expected(self):
@@ -133,6 +158,9 @@ class World(object):
             cs, ps = self.settings[x]
             out[x] = scen.fresh_results(MS, ME, MD, cs, ps)
         out["base"] = scen.fresh_results(MS, ME, MD, {}, {})
+        for who, (got, want) in self.in_session.items():
+            out[who] = want
+        self.in_session = {}
         return out
 
 
